@@ -300,3 +300,49 @@ def run(fns, unit):
     if w == 'clear':
         return run_clear(fns, tmo)
     return {'error': 'unknown heap unit'}
+
+
+# --------------------------------------------------------------------------- translator validation
+def eval_concrete_add(fns, case):
+    """case: k, c, y, map [[key,n]..] (tree mirrors it) -> post map/tree through the encoding."""
+    I = HeapInterp(fns, K)
+    I.shared = {}
+    add = I.find(r'cmsheap::<impl.*>::add$')
+    mp = [z3.Bool('mp%d' % k) for k in range(K)]
+    mn = [z3.BitVec('mn%d' % k, 64) for k in range(K)]
+    kk = z3.BitVec('k', 64)
+    c = z3.BitVec('c', 64)
+    y = z3.BitVec('y', 64)
+    I.cms_ret = c
+    world = {'locals': {'self': Struct('CMSHeap', [Opaque('cms'), MapObj(K, mp, mn), SetObj(K, mp, mn), kk])}}
+    I.world = world
+    cur = {k: v for k, v in case['map']}
+    pins = [kk == case['k'], c == case['c'], y == case['y']]
+    for k in range(K):
+        pins += [mp[k] == (k in cur), mn[k] == cur.get(k, 0)]
+    res = I.run(add, [Ref((('local', world, 'self'), [])), y], z3.And(pins))
+    found = []
+    for pc, kind, val, snap in res:
+        r, mdl = solve(pins + [pc], 60000)
+        if r == z3.sat:
+            found.append((kind, val, snap, mdl))
+    if len(found) != 1:
+        return {'error': 'expected one feasible path, got %d' % len(found)}
+    kind, val, snap, mdl = found[0]
+    if kind == 'panic':
+        return {'result': 'panic'}
+    g = lambda e: mdl.eval(e, model_completion=True)
+    st = snap['self']
+    m2, s2 = st.fields[1], st.fields[2]
+    return {'result': 'ok', 'map': sorted([k, g(m2.vals[k]).as_long()] for k in range(K) if z3.is_true(g(m2.present[k]))),
+            'tree': sorted([k, g(s2.n[k]).as_long()] for k in range(K) if z3.is_true(g(s2.present[k])))}
+
+
+def random_case(rng):
+    k = rng.choice([1, 2])
+    keys = rng.sample(range(K), rng.randrange(0, k + 1))
+    mp = [[x, rng.randrange(1, 6)] for x in sorted(keys)]
+    y = rng.randrange(K)
+    cur = dict((a, b) for a, b in mp)
+    c = (cur[y] + 1) if y in cur else rng.randrange(1, 8)
+    return {'op': 'add', 'k': k, 'map': mp, 'tree': mp, 'y': y, 'c': c, 'T': [0, 0, 0], 'E': 0}
